@@ -638,6 +638,15 @@ class _Parser(config_parse_common._Parser):
             except _ConfigurationParseError as exc:
                 _append_error_ctx(exc, f'Data stream type `{dst_name}`')
 
+        # Also resolve the field type aliases themselves so that an
+        # alias of a nonexistent field type alias, or a cycle amongst
+        # field type aliases which nothing uses, doesn't go unnoticed.
+        try:
+            for alias in list(ft_aliases_node):
+                self._resolve_ft_alias_from(ft_aliases_node, ft_aliases_node, alias)
+        except _ConfigurationParseError as exc:
+            _append_error_ctx(exc, '`type-aliases` property')
+
         # remove the (now unneeded) `type-aliases` node
         del meta_node['type-aliases']
 
